@@ -238,6 +238,35 @@ TEXT_ADD8 = {
  "C06": " Selecting page 800 reads page 800.",
  "C09": " The CLI does not reorder cues before shifting them.",
 }
+TECH_ADD9 = {
+ "C01": "a parsed colour is stored whatever its spelling (no store guarded by a call on the value); a one-entry memo needs a validity test",
+ "C02": "a parsed cue setting is stored whatever its value (no skip decided by a call on the value)",
+ "C03": "text, title and copyright stored into the TTML output as loaded; identifiers written alike where defined and where referred to; an integer quotient kept in a field is not scaled afterwards",
+ "C04": "the reader's column table is filled from the Format line only",
+ "C06": "descriptor tags accepted by teletextPID are exactly 0x56 and 0x46; Open hands ReadFromTeletext something it can rewind",
+ "C07": "Open hands ReadFromTeletext a seekable reader; TTML identifiers written alike on both sides; one-entry memos need a validity test",
+ "C08": "a loop driven by an input-consuming call ends on that call's error; flags carried by phis correlated with the branch that set them",
+ "C10": "the bound of the fragment sweep comes from a full scan of the cues",
+ "C11": "nothing rewrites the texts on the way to the identity string",
+ "C13": "the walk up the parent styles ends only on nil or on a mark, never on a counter",
+ "C14": "a duration refreshed by hand after the cut (zero, or the end of the cue before the cut index) is fresh; the cut may be a helper returning a prefix",
+ "C15": "ApplyLinearCorrection gives up on equalities only; one-entry memos need a validity test",
+ "C16": "an integer quotient kept in a field is not scaled afterwards",
+ "C17": "a split function given as a method value is resolved; one that keeps state between calls is UNDECIDED",
+ "C18": "os.Rename / CreateTemp / WriteFile / ReadFile are I/O error sources; in a closure the error is stored into the captured error result",
+ "C19": "a search over a map (left from the body with the entry at hand) needs pairwise distinct literal values",
+}
+TEXT_ADD9 = {
+ "C01": " A colour spelled #FFF is read.",
+ "C02": " A line setting of -1 is read.",
+ "C03": " No-break spaces survive the TTML writer; frame and tick offsets do not drift.",
+ "C04": " A Format line with fewer columns is honoured.",
+ "C06": " A VBI data stream is not taken for teletext.",
+ "C13": " Ancestors beyond the third parent are kept.",
+ "C15": " Reference points given latest first are honoured; a cue starting at 0 is corrected.",
+ "C18": " An uncreatable destination is reported.",
+ "C19": " The language tag written does not depend on map order.",
+}
 for k, v in TECH_ADD.items():
     TECH[k] += "; " + v
 for k, v in TEXT_ADD.items():
@@ -270,6 +299,10 @@ for k, v in TECH_ADD8.items():
     TECH[k] += "; " + v
 for k, v in TEXT_ADD8.items():
     TEXT[k] += v
+for k, v in TECH_ADD9.items():
+    TECH[k] += "; " + v
+for k, v in TEXT_ADD9.items():
+    TEXT[k] += v
 NOTE = "Assumes P0 (non-nil receivers/arguments), P1 (non-nil model elements, map keys = IDs), library contracts in internal/chk/contracts.go, and the fidelity of go/ssa + VTA (x/tools v0.29.0). Audited residue entries in rules/residue.txt are trusted."
 props = [json.loads(l) for l in open("/verif/properties.jsonl")]
 checks, na = [], []
@@ -279,7 +312,7 @@ for p in props:
         checks.append({
             "property_id": i,
             "quick_cmd": f"cd /verif && bin/astisubcheck -prop {i} -tier quick",
-            "thorough_cmd": f"cd /verif && bin/astisubcheck -prop {i} -tier thorough && python3 tools/mutants.py run -j 8 --prop {i} --evidence evidence/{i}.json",
+            "thorough_cmd": f"cd /verif && bin/astisubcheck -prop {i} -tier thorough && python3 tools/mutants.py run -j 14 --prop {i} --evidence evidence/{i}.json",
             "evidence_file": f"/verif/evidence/{i}.json",
             "replay_cmd_template": f"cd /verif && bin/astisubcheck -prop {i} -tier quick  # then look up {{path}} (evidence#obligation-key)",
             "engine": "astisubcheck",
